@@ -620,7 +620,7 @@ def evaluate(ctx, cases, impl, model):
             # no serializer may write a document for such a tree
             orc.append({"case": line, "what": "legacy FormatterToXML raised no error for a tree with an unpaired surrogate; its output: %s" % (
                             oldp[:200] if oldp.startswith("PARSEERR") else "parses to " + oldp[:200]),
-                        "known": "K-new-4" if enc in ("UTF-8", "UTF-16") else None})
+                        "known": "K-new-4"})   # every encoding: raw under UTF-8/UTF-16/UTF-32, '&#56832;' otherwise
     return corr, orc
 
 
